@@ -167,7 +167,7 @@ func buildKinds() []FieldKind {
 	}
 	emb("embed", "embed", "EmbA", EmbA{}, Val{"nonzero", rv(EmbA{Ea: 1, Eb: "e", Ef: 0.1234567890123, Eh: true})})
 	emb("embedT", "embed", "EmbT", EmbT{}, Val{"nonzero", func() reflect.Value { i := 5; return reflect.ValueOf(EmbT{Ec: 2, Ed: "d", Ee: &i}) }})
-	emb("embedptr", "embedptr", "EmbA", (*EmbA)(nil), Val{"nonzero", func() reflect.Value { return reflect.ValueOf(&EmbA{Ea: 1, Eb: "e", Ef: 0.1234567890123, Eh: true}) }})
+	emb("embedptr", "embedptr", "EmbA", (*EmbA)(nil), Val{"ptrzero", func() reflect.Value { return reflect.ValueOf(&EmbA{}) }}, Val{"nonzero", func() reflect.Value { return reflect.ValueOf(&EmbA{Ea: 1, Eb: "e", Ef: 0.1234567890123, Eh: true}) }})
 	return ks
 }
 
